@@ -3937,8 +3937,8 @@ class PyCdlib:
             num_bytes_to_add += self.enhanced_vd.logical_block_size()
 
         if joliet is not None:
-            self.joliet_vd = headervd.joliet_vd_factory(joliet, sys_ident_bytes,
-                                                        vol_ident_bytes, set_size,
+            self.joliet_vd = headervd.joliet_vd_factory(joliet, sys_ident[:16].encode('utf-8'),
+                                                        vol_ident[:16].encode('utf-8'), set_size,
                                                         seqnum, log_block_size,
                                                         vol_set_ident_bytes,
                                                         pub_ident_bytes,
